@@ -247,6 +247,10 @@ func (r *Run) Finish() {
 	for name, m := range r.sets {
 		r.counters[name+"_distinct"] = int64(len(m))
 	}
+	// widened pass: how often each injected failpoint was passed in this process
+	for name, n := range FailpointCounts() {
+		r.counters["failpoint_passed:"+name] = int64(n)
+	}
 	floors := map[string][2]int64{}
 	for k, min := range r.floors {
 		floors[k] = [2]int64{r.counters[k], min}
